@@ -117,8 +117,68 @@ def extract(relpath, fn, nth=1, block=None, bnth=1, end=None, through=None):
     return seg, first_line, sha
 
 
+def _unescape_len(body):
+    """UTF-8 byte length of a (non-raw) Rust string literal body."""
+    n, i = 0, 0
+    while i < len(body):
+        c = body[i]
+        if c == "\\":
+            d = body[i + 1]
+            if d == "x":
+                n += 1
+                i += 4
+            elif d == "u":
+                j = body.index("}", i)
+                n += len(chr(int(body[i + 3:j], 16)).encode())
+                i = j + 1
+            elif d == "\n":  # line continuation: skips following whitespace
+                i += 2
+                while i < len(body) and body[i] in " \t\n\r":
+                    i += 1
+            else:
+                n += 1
+                i += 2
+        else:
+            n += len(c.encode())
+            i += 1
+    return n
+
+
+def builtin_strlit(seg, log, where):
+    """dialect rule `strlit`: "text" -> lit("text", N), N = byte length (computed here)."""
+    masked = rustlex.mask(seg)
+    out, pos, k = [], 0, 0
+    i = 0
+    while True:
+        a = masked.find('"', i)
+        if a < 0:
+            break
+        b = masked.find('"', a + 1)
+        if b < 0:
+            raise LostAnchor("unterminated string literal in %s" % where)
+        pre = seg[max(0, a - 4):a]
+        if re.search(r"(r#*|b)$", pre):
+            raise LostAnchor("raw/byte string literal in %s not supported by rule strlit" % where)
+        body = seg[a + 1:b]
+        out.append(seg[pos:a])
+        out.append('lit("%s", %d)' % (body, _unescape_len(body)))
+        pos = b + 1
+        i = b + 1
+        k += 1
+    out.append(seg[pos:])
+    if k:
+        log.append({"rule": "builtin:strlit", "matches": k, "where": where})
+    return "".join(out)
+
+
+BUILTINS = {"strlit": builtin_strlit}
+
+
 def apply_rules(seg, rules, log, where):
     for name, rx, repl, need in rules:
+        if name.startswith("builtin:"):
+            seg = BUILTINS[rx](seg, log, where)
+            continue
         try:
             seg, k = re.subn(rx, repl, seg, flags=re.M)
         except re.error as e:
@@ -143,6 +203,7 @@ class Generated:
         self.widths = ["u32"]
         self.nprobes = 0
         self.dropped = set()
+        self.expects = []
 
 
 WIDTH = {
@@ -198,6 +259,16 @@ def generate(tpl_path, width="u32", vacuity=False):
         elif s.startswith("//@probe"):
             probe_line(origin)
             i += 1
+        elif s.startswith("//@expect"):
+            kv = _parse_kv(s[len("//@expect"):])
+            path = os.path.join(REPO, kv["file"])
+            if not os.path.exists(path):
+                raise LostAnchor("source file %s not found" % kv["file"])
+            txt = open(path, encoding="utf-8").read()
+            if not re.search(kv["re"], txt, re.M):
+                raise LostAnchor("expected text `%s` no longer present in %s (a stand-in's stated facts depend on it)" % (kv["re"], kv["file"]))
+            g.expects.append({"file": kv["file"], "re": kv["re"]})
+            i += 1
         elif s.startswith("//@body"):
             kv = _parse_kv(s[len("//@body"):])
             rules = []
@@ -209,6 +280,13 @@ def generate(tpl_path, width="u32", vacuity=False):
                 if l2.startswith("//@endbody"):
                     i += 1
                     break
+                mb = re.match(r"//@builtin\s+(\w+)", l2)
+                if mb:
+                    if mb.group(1) not in BUILTINS:
+                        raise LostAnchor("unknown builtin rule %s" % mb.group(1))
+                    rules.append(("builtin:" + mb.group(1), mb.group(1), None, None))
+                    i += 1
+                    continue
                 m = re.match(r"//@rule\s+(?:n=(\d+|\*)\s+)?`(.*)`\s+=>(>)?\s*(?:`(.*)`)?\s*$", l2)
                 if not m:
                     if l2 == "" or (l2.startswith("//") and not l2.startswith("//@")):
